@@ -3,7 +3,7 @@
    store (proved for every genesis store: genesis_inv), [wf_hist] (the trie-layer premise on the node sets, see Crash/ProofsImport.v). *)
 From Coq Require Import List NArith Bool.
 From Verif Require Import Crash.Model Crash.ProofsStore Crash.ProofsInv Crash.ProofsImport Crash.ProofsCrash Crash.Examples
-  Crash.ProofsEqv Crash.ProofsShape Crash.ProofsResumeAll Crash.ProofsResume.
+  Crash.ProofsEqv Crash.ProofsShape Crash.ProofsResumeAll Crash.ProofsOrphans Crash.ProofsResume.
 Import ListNotations.
 Open Scope N_scope.
 
@@ -116,6 +116,60 @@ Example with_repair_every_cut_of_the_example_converges :
   option_map (finalized ex_cfg) (resume ex_cfg true (crash ex_cfg ex_s0 ex_hist 27) []) = Some (bid 2 2).
 Proof. exact resume_converges_on_example. Qed.
 
+(* ---- value consistency and orphans_harmless.
+   [key_ver k] is the (number, conflicts) version a key is stamped with (trie nodes, transactions, receipts, tx-index entries).
+   Inv3 = FreshInv (a stored block's conflicts number is below ScanConflicts of its height) + VerInv (every node a stored root
+   reaches carries the version of a stored block); it holds for every genesis store and at EVERY cut of every history. *)
+Theorem every_cut_satisfies_inv3 c s0 hist k : wf_cfg c -> Inv c s0 -> Inv3 s0 -> wf_hist c s0 hist -> Inv3 (crash c s0 hist k).
+Proof. exact (crash_inv3 c s0 hist k). Qed.
+
+(* no import — complete or cut anywhere — writes a key stamped with the version of a stored block *)
+Theorem import_never_rewrites_stored_version c s b j k v :
+  FreshInv s -> key_ver k = Some v -> stored_ver s v ->
+  get (apply_writes s (firstn j (import_batches c s b))) k = get s k.
+Proof. exact (ProofsOrphans.import_never_rewrites_stored_version c s b j k v). Qed.
+
+(* ... so everything a stored block wrote keeps its value over any number of further imports *)
+Theorem run_keeps_stored_data c l s k v : wf_cfg c -> Inv c s -> Inv3 s -> wf_hist c s l ->
+  key_ver k = Some v -> stored_ver s v -> get (run c s l) k = get s k.
+Proof. exact (ProofsOrphans.run_keeps_stored_data c l s k v). Qed.
+
+(* ... and after a crash at ANY cut, whatever block comes next (the interrupted one or another block that is given the same
+   version as the leftovers) and however far its import gets: what a committed root resolves to does not change *)
+Theorem reimport_after_crash_keeps_stored_data c s0 hist k b' j key v :
+  wf_cfg c -> Inv c s0 -> Inv3 s0 -> wf_hist c s0 hist ->
+  let s' := crash c s0 hist k in
+  key_ver key = Some v -> stored_ver s' v ->
+  get (apply_writes s' (firstn j (import_batches c s' b'))) key = get s' key.
+Proof. exact (ProofsOrphans.reimport_after_crash_keeps_stored_data c s0 hist k b' j key v). Qed.
+
+(* orphans_harmless: a versioned key written by an import whose block is not stored is reachable from no stored root *)
+Theorem orphans_unreachable c s b j w o :
+  Inv3 s -> In w (firstn j (import_batches c s b)) -> In o w -> stored s (b_id b) = false ->
+  forall x sm, get_summary s x = Some sm -> key_ver (op_key o) <> None -> ~ In (op_key o) (s_sreach sm ++ s_ireach sm).
+Proof. exact (ProofsOrphans.orphans_unreachable c s b j w o). Qed.
+
+(* the tx index: at every cut each transaction of each stored block has its tx-index entry, and the (number, conflicts) in
+   the entry's key identifies exactly one stored block — the block holding the transaction *)
+Theorem tx_index_points_to_its_block c s0 hist k : wf_cfg c -> Inv c s0 -> Inv3 s0 -> Inv4 s0 -> wf_hist c s0 hist ->
+  let s := crash c s0 hist k in
+  forall x sm t, get_summary s x = Some sm -> In t (s_txs sm) ->
+    has s (KTxMeta t (num_of x) (s_conf sm)) = true /\
+    (forall y sy, get_summary s y = Some sy -> num_of y = num_of x -> s_conf sy = s_conf sm -> y = x).
+Proof. exact (ProofsOrphans.tx_index_points_to_its_block c s0 hist k). Qed.
+
+Theorem genesis_store_inv4 g : b_txs g = [] -> Inv4 (genesis_store g).
+Proof. exact (genesis_inv4 g). Qed.
+
+Theorem genesis_store_inv3 g : b_skeep g = [] -> b_ikeep g = [] -> Inv3 (genesis_store g).
+Proof. exact (genesis_inv3 g). Qed.
+
+Example orphan_exists_in_example :
+  Inv3 ex_s0 /\ Inv4 ex_s0 /\
+  has (crash ex_cfg ex_s0 ex_hist 9) (KNode 0 31 3 0) = true /\ stored (crash ex_cfg ex_s0 ex_hist 9) (bid 3 3) = false /\
+  stored (crash ex_cfg ex_s0 ex_hist 9) (bid 2 2) = true.
+Proof. exact (conj ex_inv3 (conj ex_inv4 ex_orphan)). Qed.
+
 (* non-vacuity: a concrete genesis and a seven-block history over three committed epochs meet the hypotheses *)
 Example hypotheses_met : wf_cfg ex_cfg /\ Inv ex_cfg ex_s0 /\ wf_hist ex_cfg ex_s0 ex_hist.
 Proof. exact (conj ex_wf_cfg (conj ex_inv0 ex_wf_hist)). Qed.
@@ -142,5 +196,14 @@ Print Assumptions import_reads_no_node_or_code.
 Print Assumptions run_keeps_inv2.
 Print Assumptions genesis_store_inv2.
 Print Assumptions resume_hypotheses_met.
+Print Assumptions every_cut_satisfies_inv3.
+Print Assumptions import_never_rewrites_stored_version.
+Print Assumptions run_keeps_stored_data.
+Print Assumptions reimport_after_crash_keeps_stored_data.
+Print Assumptions orphans_unreachable.
+Print Assumptions tx_index_points_to_its_block.
+Print Assumptions genesis_store_inv4.
+Print Assumptions genesis_store_inv3.
+Print Assumptions orphan_exists_in_example.
 Print Assumptions hypotheses_met.
 Print Assumptions history_not_trivial.
